@@ -6,6 +6,7 @@ import (
 	"testing"
 
 	"github.com/aml-org/amf-custom-validator/pkg"
+	"github.com/aml-org/amf-custom-validator/pkg/config"
 	e "github.com/aml-org/amf-custom-validator/pkg/events"
 	"github.com/open-policy-agent/opa/rego"
 	"verifharness/ev"
@@ -181,6 +182,21 @@ func decideC08(c c08Case) ev.Verdict {
 		}
 		if x.EventType == e.OpaValidationStart || x.EventType == e.InputDataParsingStart {
 			return ev.Violation("c08-evaluated:"+c.Builtin, "pipeline went on to stage %d although the profile calls %s", x.EventType, c.Builtin)
+		}
+	}
+	// the same through the configurable entry point, under report configurations that differ from the default
+	for _, rc := range []config.ReportConfiguration{
+		{IncludeReportCreationTime: false, ReportSchemaIri: config.DefaultReportConfiguration().ReportSchemaIri, LexicalSchemaIri: config.DefaultReportConfiguration().LexicalSchemaIri},
+		{IncludeReportCreationTime: true, ReportSchemaIri: "file:///other/report.yaml", LexicalSchemaIri: "file:///other/lexical.yaml"},
+		{},
+	} {
+		rc := rc
+		r := guard(func() (string, error) { return pkg.ValidateWithConfiguration(profile, c08Data, c.Debug, nil, clock0, rc) })
+		if r.Panic != "" {
+			return ev.Violation("c08-panic", "ValidateWithConfiguration panicked: %s", r.Panic)
+		}
+		if r.Err == nil || r.Report != "" {
+			return ev.Violation("c08-validated:"+c.Builtin, "ValidateWithConfiguration (configuration %+v) returned a report for a profile calling %s (%s, %s)", rc, c.Builtin, c.Position, c.Syntax)
 		}
 	}
 	return ev.Verdict{OK: true, NonTrivial: true, Labels: []string{"builtin:" + c.Builtin, "position:" + c.Position, "syntax:" + c.Syntax, fmt.Sprintf("debug:%v", c.Debug)}}
